@@ -342,7 +342,11 @@ def run_intest(ctx, cases, mode, timeout=1500):
             info["races"].add(cid)
     if "DATA RACE" in out:
         i = out.index("DATA RACE")
-        info["race_report"] = out[max(0, i - 40):i + 2500]
+        rep = out[max(0, i - 40):i + 2500]
+        info["race_report"] = rep
+        first = rep.split("Goroutine ")[0]          # the two conflicting accesses of the first report
+        fns = sorted(set(re.findall(r"grog/internal/dag\.\(\*Walker\)\.(\w+)\(", first)))
+        info["race_where"] = "+".join(fns) if fns else "harness-only"
     if rc != 0 and not res and "fatal error:" not in out and "DATA RACE" not in out and "--- FAIL" not in out:
         info["built"] = False
     return res, info
